@@ -2,7 +2,9 @@ import GeoVerif.Model.MathF
 /-!
 # `Accumulator<double>` (include/GeographicLib/Accumulator.hpp) over the exact binary64 model
 
-The pair `(_s, _t)` and the operations that need no `fma`: `Add`, assignment, `-=`, `*= -1`.
+The pair `(_s, _t)` and every public mutating member: construction / `operator=`, `+=`, `-=`, `*= int`, `*= T` (two `fma`s),
+`remainder`, plus the state machine `run` over operation lists that the theorems of `Props/C16.lean` are about and that the
+driver executes against the implementation step by step.
 -/
 namespace GeoVerif.Accum
 open GeoVerif F64
@@ -13,6 +15,12 @@ structure Acc where
 
 /-- `Accumulator()` / `operator=(T y)` -/
 def set (y : F64) : Acc := ⟨y, 0⟩
+
+/-- `Accumulator::fastsum(u, v, t)` (private, "requires abs(u) >= abs(v)", currently unused by the library): returns `(s, t)` -/
+def fastsum (u v : F64) : F64 × F64 :=
+  let s := u + v
+  let vp := s - u
+  (s, v - vp)
 
 /-- `Accumulator::Add(T y)` -/
 def add (a : Acc) (y : F64) : Acc :=
@@ -25,5 +33,57 @@ def sub (a : Acc) (y : F64) : Acc := add a (F64.neg y)
 
 /-- `operator*=(int n)` for `n = −1`: `_s *= n; _t *= n` (exact sign flips) -/
 def negate (a : Acc) : Acc := ⟨F64.neg a.s, F64.neg a.t⟩
+
+/-- `operator*=(int n)`: `_s *= n; _t *= n` (the `int` is converted to `T` exactly) -/
+def mulInt (a : Acc) (n : Int) : Acc := ⟨a.s * F64.ofInt n, a.t * F64.ofInt n⟩
+
+/-- `std::fma(a, b, c)`: the exact `a·b + c` rounded once -/
+def fma (a b c : F64) : F64 :=
+  match a, b, c with
+  | .fin sa _ _, .fin sb _ _, .fin sc _ _ =>
+    F64.rnd (Dy.add (Dy.mul a.toDy b.toDy) c.toDy) ((sa != sb) && sc)
+  | _, _, _ => a * b + c        -- NaN / infinity propagation (not reached by the finite histories the driver models)
+
+/-- `operator*=(T y)`: `d = _s; _s *= y; d = fma(y, d, -_s); _t = fma(y, _t, d)` -/
+def mulF (a : Acc) (y : F64) : Acc :=
+  let s' := a.s * y
+  let d := fma y a.s (F64.neg s')
+  ⟨s', fma y a.t d⟩
+
+/-- `remainder(T y)`: `_s = remainder(_s, y); Add(0)` -/
+def remainder (a : Acc) (y : F64) : Acc := add ⟨F64.remainder a.s y, a.t⟩ 0
+
+/-- `operator()()`: the reported value -/
+def report (a : Acc) : F64 := a.s
+
+/-- `operator()(T y)` = `Sum(y)`: the reported value of a copy after `Add(y)` -/
+def sumQuery (a : Acc) (y : F64) : F64 := (add a y).s
+
+/-- the mutating public operations -/
+inductive Op where
+  | set (y : F64)        -- `operator=(T)` / construction + copy-assignment
+  | add (y : F64)        -- `+=`
+  | sub (y : F64)        -- `-=`
+  | neg                  -- `*= -1`
+  | mulInt (n : Int)     -- `*= int`
+  | mulF (y : F64)       -- `*= T`
+  | rem (y : F64)        -- `remainder(T)`
+  | nop                  -- copy round trip and the `const` members (`operator()`, `operator()(T)`, comparisons)
+
+def step (a : Acc) : Op → Acc
+  | .set y => set y
+  | .add y => add a y
+  | .sub y => sub a y
+  | .neg => negate a
+  | .mulInt n => mulInt a n
+  | .mulF y => mulF a y
+  | .rem y => remainder a y
+  | .nop => a
+
+/-- a history applied to the default-constructed accumulator is `run (set 0) ops` -/
+def run (a : Acc) (ops : List Op) : Acc := ops.foldl step a
+
+/-- exact value held by the accumulator, as a dyadic -/
+def held (a : Acc) : Dy := Dy.add a.s.toDy a.t.toDy
 
 end GeoVerif.Accum
